@@ -422,6 +422,107 @@ def canon_fn(f, src=None, keep=(), iflet=False, lets=True, keep_lets=(), helpers
     return c.block(f.body, toplevel=True)
 
 
+def inline_local_closures(f):
+    """A copy of Fn f in which every call `name(a, b)` of a local closure `let name = |p, q| BODY;` (immutable, defined at the top level of the function body and
+    never used as a value) is replaced by BODY[p := a, q := b] and the `let` is dropped: a local closure is a helper like any other."""
+    import copy
+
+    body = f.body
+    if body is None or body.get("k") != "block":
+        return f
+    stmts = list(body["stmts"])
+    changed = False
+    i = 0
+    while i < len(stmts):
+        st = stmts[i]
+        if st.get("k") == "let" and st["pat"].get("k") == "ident" and not st["pat"].get("mut") and is_node(st.get("init")) and st["init"].get("k") == "closure":
+            name, clo = st["pat"]["name"], st["init"]
+            params = []
+            ok = True
+            for p in clo["params"]:
+                q = p["pat"] if p.get("k") == "typed" else p
+                if q.get("k") != "ident":
+                    ok = False
+                    break
+                params.append(q["name"])
+            rest = stmts[i + 1 :]
+            uses = [x for y in rest for x in _walk(y) if x.get("k") == "path" and x.get("segs") == [name]]
+            calls = [x for y in rest for x in _walk(y) if x.get("k") == "call" and is_node(x.get("f")) and x["f"].get("k") == "path" and x["f"].get("segs") == [name]]
+            if ok and uses and len(uses) == len(calls) and all(len(c["args"]) == len(params) for c in calls):
+
+                def repl(n):
+                    if isinstance(n, list):
+                        return [repl(x) for x in n]
+                    if not isinstance(n, dict):
+                        return n
+                    if n.get("k") == "call" and is_node(n.get("f")) and n["f"].get("k") == "path" and n["f"].get("segs") == [name]:
+                        args = [repl(a) for a in n["args"]]
+                        return subst(clo["body"], dict(zip(params, args)))
+                    return {a: (repl(b) if isinstance(b, (dict, list)) else b) for a, b in n.items()}
+
+                stmts = stmts[:i] + [repl(y) for y in rest]
+                changed = True
+                continue
+        i += 1
+    if not changed:
+        return f
+    g = copy.copy(f)
+    g.node = dict(f.node, body=dict(body, stmts=stmts))
+    return g
+
+
+def accumulate_loop_as_fold(f):
+    """A copy of Fn f whose trailing `let mut acc = INIT; for PAT in ITER { acc = STEP; } acc` (also `acc += E`) is the tail expression
+    `ITER.fold(INIT, |acc, PAT| STEP)`: the loop form of a fold reads like the fold."""
+    import copy
+
+    body = f.body
+    if body is None or body.get("k") != "block" or len(body["stmts"]) < 3:
+        return f
+    st = body["stmts"]
+    let, loop, tail = st[-3], st[-2], st[-1]
+    if not (let.get("k") == "let" and let["pat"].get("k") in ("ident", "typed") and let.get("init") is not None and loop.get("k") == "expr" and loop["e"].get("k") == "for" and tail.get("k") == "expr" and not tail.get("semi")):
+        return f
+    pat = let["pat"] if let["pat"]["k"] == "ident" else let["pat"]["pat"]
+    if pat.get("k") != "ident":
+        return f
+    acc = pat["name"]
+    if not (tail["e"].get("k") == "path" and tail["e"].get("segs") == [acc]):
+        return f
+    lp = loop["e"]
+    bs = lp["body"]["stmts"] if lp["body"].get("k") == "block" else [{"k": "expr", "e": lp["body"]}]
+    if len(bs) != 1 or bs[0].get("k") != "expr":
+        return f
+    e = bs[0]["e"]
+    l = lp.get("l", 0)
+    accp = {"k": "path", "l": l, "p": acc, "segs": [acc]}
+    step = None
+    if e.get("k") == "assign" and e["lhs"].get("k") == "path" and e["lhs"].get("segs") == [acc]:
+        step = e["rhs"]
+    elif e.get("k") == "binary" and e.get("op", "").strip() in ("+=", "-=", "*=") and e["lhs"].get("k") == "path" and e["lhs"].get("segs") == [acc]:
+        step = {"k": "binary", "l": l, "op": e["op"].strip()[0], "lhs": accp, "rhs": e["rhs"]}
+    if step is None:
+        return f
+    fold = {"k": "mcall", "l": l, "m": "fold", "recv": lp["e"], "args": [let["init"], {"k": "closure", "l": l, "params": [{"k": "ident", "name": acc, "l": l}, lp["pat"]], "body": step}]}
+    g = copy.copy(f)
+    g.node = dict(f.node, body=dict(body, stmts=st[:-3] + [{"k": "expr", "l": l, "e": fold, "semi": False}]))
+    return g
+
+
+def _walk(n):
+    if isinstance(n, list):
+        for x in n:
+            for y in _walk(x):
+                yield y
+    elif isinstance(n, dict):
+        if "k" in n:
+            yield n
+        for v in n.values():
+            if isinstance(v, (dict, list)):
+                for y in _walk(v):
+                    yield y
+
+
 def canon_view(f, src=None, **kw):
     """A copy of Fn f whose body is canonical (same name, file, line ...)."""
     import copy
